@@ -125,6 +125,15 @@ def gate_round_trip(ck: Checker, m, it, types, ids, arity, R='C16.GATE-RT'):
 
 
 def run(ck: Checker):
+    ck.rule('C16.RT', 'encode_circuit then decode_circuit folded (bit writer and reader included) on instances of the repository\'s Circuit class over a family of model circuits: a codec error, or the same numbers of inputs, outputs and gates and the same truth table; circuits within the format are never refused')
+    from .. import eval_fold
+    eval_fold.fold_codec(ck, 'C16.RT')
+    # everything structural below speaks where it recognises the code; the folds inside (marked hard) keep their verdicts
+    with ck.soft('C16.RT / C16.GATE-RT / the bit- and dictionary-level folds'):
+        _body(ck)
+
+
+def _body(ck: Checker):
     repo = ck.repo
     den = Denotations(repo)
     m = repo.mod(ENC)
@@ -141,6 +150,7 @@ def run(ck: Checker):
     it = Interp(repo, overrides=ov)
 
     # ---- IDS ----
+    ck.hard_on()
     d = m.assign('_gate_type_to_int')
     ck.need(isinstance(d, ast.Dict), f'{m.rel}: _gate_type_to_int is not a dict literal')
     bits = it.global_value(m, 'GATE_TYPE_BIT_SIZE')
@@ -169,6 +179,7 @@ def run(ck: Checker):
         ck.check(legal, 'C16.ARITY', m, m.func('_get_arity'), f'the format\'s operand count of {t} ({a}) is a legal arity of its operator',
                  f'_get_arity({t}) = {a} but the operator takes {cls}', construct=f'_get_arity({t}) = {a}')
     gate_round_trip(ck, m, it, types, ids, arity)
+    ck.hard_off()
     refuses_fold = not any(o.rule == 'C16.GATE-RT' and o.status == 'violation' for o in ck.obligations)
     eg = m.func('_encode_gate')
     gparam = eg.args.args[1].arg
@@ -322,6 +333,7 @@ def run(ck: Checker):
              'C16.MIRROR', m, ec, 'header, parameters, body are written and read in that order', 'top-level order changed', construct='encode_circuit / decode_circuit')
 
     # ---- MIRROR: bit level, folded ----
+    ck.hard_on()
     bm = repo.mod(BIT)
     W = RepoClass(bm, bm.cls('BitWriter'))
     Rd = RepoClass(bm, bm.cls('BitReader'))
@@ -396,6 +408,7 @@ def run(ck: Checker):
                 if e.exc_name != 'BinaryDictIOError':
                     probs.append(f'{what}: raises {e.exc_name}')
     ck.check(not probs, 'C16.EXACT', dm, dm.func('read_binary_dict'), 'truncated and trailing data are refused with BinaryDictIOError', '; '.join(probs[:3]), construct='read_binary_dict truncated / trailing')
+    ck.hard_off()
     # size constants mirrored
     def sizes(f, helper):
         return [norm(c.args[-1]) for c in sorted(calls_in(f, helper), key=lambda c: c.lineno)]
